@@ -77,7 +77,7 @@ class PSNode(Node):
           - update all customers' service times
         """
         if self.number_of_individuals >= self.ps_capacity:
-            ind = self.all_individuals[self.ps_capacity - 1]
+            ind = min((i for i in self.all_individuals if not i.with_server), key=lambda i: i.arrival_date)
             ind.service_start_date = self.now
             ind.date_last_update = self.now
             ind.service_time = self.get_service_time(ind)
